@@ -210,7 +210,7 @@ Definition conformant_iset (puf : bool) (s : ixstate) (f : iset_spec) : Prop :=
   | SOTemplate t => wf_iotemplate t /\ fields_valid (io_fields t) = true
   | SData id recs pad =>
       (ipfix_set_min_range <= id < 65536)%N /\ recs <> [] /\
-      (* exactly one of the two maps holds the id (else see K_C06_kind_change) *)
+      (* exactly one of the two maps holds the id (always so in a state a parser can reach, since repair 4fcfdcb) *)
       ((lookup id (ix_t s) <> None /\ lookup id (ix_o s) = None) \/ (lookup id (ix_t s) = None /\ lookup id (ix_o s) <> None)) /\
       let fs := fields_of s id in
       fs <> [] /\ Forall (iknown puf) fs /\ (0 < min_rec fs)%N /\ (lenN pad < min_rec fs)%N
